@@ -318,8 +318,8 @@ class C11(Property):
     # ------------------------------------------------------------------ case generation
     def cases(self, rng: random.Random, tier: str, deep: bool) -> Iterator[Dict[str, Any]]:
         scale = 6 if deep else 1
-        plan = [("hmmresult", 1000), ("nrpspks", 500), ("hmmdet", 350), ("sideload", 1000), ("hmmer", 1200),
-                ("tta", 600), ("resfile", 500), ("sideopt", 700), ("runmod", 24)]
+        plan = [("hmmresult", 800), ("nrpspks", 450), ("hmmdet", 320), ("sideload", 800), ("hmmer", 1000),
+                ("tta", 500), ("resfile", 400), ("sideopt", 600), ("runmod", 24)]
         for kind, n in plan:
             if kind == "runmod":
                 yield from self.all_runmod()
